@@ -24,11 +24,6 @@ theorem forall_sig_of_all {p : Sig → Bool} (h : Sig.all.all p = true) (s : Sig
 
 /-! ## the handler's calls on a frontend thread -/
 
-/-- the frontend branch: first entrant, backend id published, not the backend thread, a logger exists, re-raise on -/
-def Ctx.frontend (s : Sig) (parkReturns : Bool) : Ctx :=
-  { sig := s, first := true, parkReturns := parkReturns, backendIdSet := true, onBackend := false,
-    hasLogger := true, reraise := true }
-
 theorem onSignal_frontend (s : Sig) (pr : Bool) :
     onSignal (Ctx.frontend s pr) =
       if s.graceful then [.storeSignal, .setAlarm, .logNotice, .flush, .exitSuccess]
